@@ -25,10 +25,11 @@ def main():
     ap.add_argument("--tier", default="quick")
     ap.add_argument("--keep", action="store_true")
     ap.add_argument("--needs", default="")
+    ap.add_argument("--tag", default="", help="wave tag, e.g. b -> candidate name C06-b1")
     args = ap.parse_args()
     patch = os.path.join(args.src, f"patch{args.k}.diff")
     demo = os.path.join(args.src, f"demo{args.k}.py")
-    name = f"{args.prop}-{args.k}"
+    name = f"{args.prop}-{args.tag}{args.k}"
     wt = make_worktree("seed-" + name)
     meta = {"property": args.prop, "candidate": name, "ran": []}
     try:
@@ -53,7 +54,7 @@ def main():
         meta["checks"] = {}
         for c in filter(None, args.checks.split(",")):
             t0 = time.time()
-            r = sh(f"cd /verif && CSS_REPO={wt} ./check {c} --tier {args.tier} --no-confirm", timeout=7200)
+            r = sh(f"cd /verif && VERIF_EVIDENCE_DIR=/tmp/verif_scratch/evidence VERIF_REPLAY_DIR=/tmp/verif_scratch/replays CSS_REPO={wt} ./check {c} --tier {args.tier} --no-confirm", timeout=7200)
             groups = [l.strip()[:300] for l in r.stdout.splitlines() if l.startswith("  ")]
             verdict = "caught" if r.returncode == 1 else "silent" if r.returncode == 0 else f"error{r.returncode}"
             meta["checks"][c] = {"verdict": verdict, "tier": args.tier, "seconds": round(time.time() - t0, 1), "first_report": groups[:2]}
